@@ -82,9 +82,11 @@ theorem assignment_reaches_each_watcher_once (c : Cfg) (f : Nat) (w : World) (p 
 (`obj.param.p.<slot> = v`) that returns normally has invoked — directly, before returning — every
 watcher registered for that attribute of that parameter that passes the changes-only filter, once
 each, in *registration* order, each with the single event carrying the attribute's old and new
-value. -/
+value.  (`hnoreg`: a registered watcher has its (parameter, attribute) key recorded — an invariant of
+every world built by `watch`, see `slotKeys_cover_registrations`.) -/
 theorem slot_assignment_reaches_each_watcher_once (c : Cfg) (f : Nat) (w : World) (p k : Nat) (v : Int)
-    (hb : w.batch = false) (hok : (run c f (.setSlot p k v) w).1 = .ok) :
+    (hb : w.batch = false) (hok : (run c f (.setSlot p k v) w).1 = .ok)
+    (hnoreg : (p, k) ∉ w.slotKeys → regsForSlot w p k = []) :
     (callSigs (run c f (.setSlot p k v) w).2.2).filter (fun s => !s.2.2) =
       ((regsForSlot w p k).filter (fun wt => passes w.trigger wt { name := p, old := getSlot w p k, new := v, what := k })).map
         (fun wt => (wt.cb, [typed w.trigger wt { name := p, old := getSlot w p k, new := v, what := k }], false)) := by
@@ -99,10 +101,11 @@ theorem slot_assignment_reaches_each_watcher_once (c : Cfg) (f : Nat) (w : World
     generalize hrun : run c (f+1) (.setSlot p k v) w = out at hok ⊢
     simp only [run] at hrun
     split at hrun
-    · rename_i hempty
+    · -- no watcher was ever registered for this attribute: nothing is invoked, nothing expected
+      rename_i hkey
       subst hrun
-      have : regsForSlot w p k = [] := List.isEmpty_iff.1 hempty
-      simp [this]
+      have hreg : regsForSlot w p k = [] := hnoreg (by simpa using hkey)
+      simp [hreg]
     · generalize hd : run c f (.dispatch (regsForSlot w p k) { name := p, old := getSlot w p k, new := v, what := k })
           { w with slotVals := setSlotVal w.slotVals p k v } = d at hrun hfl hsh
       obtain ⟨r1, w2, o1⟩ := d
@@ -122,6 +125,26 @@ theorem slot_assignment_reaches_each_watcher_once (c : Cfg) (f : Nat) (w : World
         subst hrun
         simp only [callSigs_append, List.filter_append, hff w2, List.append_nil, hsh rfl]
         simp [List.filter_map, Function.comp_def]
+
+/-- registering a watcher records its (parameter, attribute) keys -/
+theorem slotKeys_cover_registrations (c : Cfg) (f : Nat) (w : World) (wt : Watcher)
+    (hinv : ∀ x ∈ w.regs, x.what ≠ 0 → ∀ q ∈ x.params, (q, x.what) ∈ w.slotKeys) :
+    ∀ x ∈ (run c (f + 1) (.stmt (.watch wt)) w).2.1.regs, x.what ≠ 0 →
+      ∀ q ∈ x.params, (q, x.what) ∈ (run c (f + 1) (.stmt (.watch wt)) w).2.1.slotKeys := by
+  simp only [run]
+  split
+  · intro x hx hne q hq
+    simp only [List.mem_append, List.mem_singleton] at hx
+    rcases hx with hx | hx
+    · have := hinv x hx hne q hq
+      simp only
+      split
+      · exact this
+      · exact List.mem_append_left _ this
+    · subst hx
+      simp only [hne, if_false]
+      exact List.mem_append_right _ (List.mem_map.2 ⟨q, hq, rfl⟩)
+  · exact hinv
 
 /-- `obj.p = v` runs the ordinary setter `setPlain` for every parameter type; an Event parameter
 additionally resets itself afterwards, which adds nothing to the log.  So the theorem above speaks
